@@ -81,7 +81,7 @@ def strategies():
         return {
             "family": "pair",
             "timeouts": draw(timeouts),
-            "max_steps": 30000,
+            "max_steps": 20000, "quantum": 0.1,
             "acceptor": {"kind": "pynetdicom", "handlers": draw(handlers), "shutdown_at": draw(t_opt)},
             "requestors": [{"kind": "pynetdicom", "script": script, "abort_at": draw(t_opt)}],
             "schedule": draw(schedule),
@@ -137,7 +137,7 @@ def strategies():
             script = script + [["recv_until_close", 8], ["close"]]
         return {
             "family": "rawreq", "deviation": label, "dev_pos": pos if dev else None,
-            "timeouts": draw(timeouts), "max_steps": 30000,
+            "timeouts": draw(timeouts), "max_steps": 20000, "quantum": 0.1,
             "acceptor": {"kind": "pynetdicom", "handlers": draw(handlers), "shutdown_at": draw(t_opt)},
             "requestors": [{"kind": "raw", "script": script}],
             "schedule": draw(schedule),
@@ -166,7 +166,7 @@ def strategies():
             script = script + [["recv_until_close", 8], ["close"]]
         return {
             "family": "rawacc", "deviation": label, "dev_pos": pos if dev else None,
-            "timeouts": draw(timeouts), "max_steps": 30000,
+            "timeouts": draw(timeouts), "max_steps": 20000, "quantum": 0.1,
             "acceptor": {"kind": "raw", "script": script},
             "requestors": [{"kind": "pynetdicom", "script": script_user, "abort_at": draw(t_opt)}],
             "schedule": draw(schedule),
